@@ -505,6 +505,7 @@ func init() {
 		ruleFCCloseGuard(r)
 		ruleFCIdentity(r)
 		ruleFCRefs(r)
+		ruleFCRemovedWrites(r)
 		ruleFCLocked(r)
 		ruleFCClient(r)
 	},
